@@ -84,8 +84,13 @@ func vhC14UnmarshalText() {
 	b := verifNondetBytes("b", verifParam("N", 4))
 	// the receiver starts from an arbitrary previous value
 	f := messageField{value: verifNondetString("prev", 2), set: verifNondetBool("prevset")}
+	in := string(b)
 	err := f.UnmarshalText(b)
-	vhC14Check("UnmarshalText", string(b), f, err, true)
+	vhC14Check("UnmarshalText", in, f, err, true)
+	for i := range b {
+		b[i] = '\n'
+	}
+	verifAssert(!f.IsSet() || !vhHasNL(f.String()), "C14/UnmarshalText/single-line-after-buffer-reuse")
 }
 
 func vhC14Scan() {
@@ -102,6 +107,9 @@ func vhC14Scan() {
 		b := verifNondetBytes("b", verifParam("N", 4))
 		in = string(b)
 		err = f.Scan(b)
+		for i := range b {
+			b[i] = '\n' // database drivers reuse the byte slice after Scan returns
+		}
 	case 2:
 		in = verifNondetString("s", verifParam("N", 4))
 		err = f.Scan(in)
@@ -147,6 +155,12 @@ func vhC14MessageUnmarshal() {
 	_ = m.UnmarshalText(wire)
 	verifAssert(!m.ID.IsSet() || !vhHasNL(m.ID.String()), "C14/Message.UnmarshalText/id-single-line")
 	verifAssert(!m.Type.IsSet() || !vhHasNL(m.Type.String()), "C14/Message.UnmarshalText/type-single-line")
+	// the caller may reuse its buffer afterwards (encoding.TextUnmarshaler must copy what it keeps)
+	for i := range wire {
+		wire[i] = '\n'
+	}
+	verifAssert(!m.ID.IsSet() || !vhHasNL(m.ID.String()), "C14/Message.UnmarshalText/id-single-line-after-buffer-reuse")
+	verifAssert(!m.Type.IsSet() || !vhHasNL(m.Type.String()), "C14/Message.UnmarshalText/type-single-line-after-buffer-reuse")
 }
 
 // Templates "id:<hole>\n" and "event:<hole>\n" reach the field code with longer values.
@@ -156,9 +170,15 @@ func vhC14MessageUnmarshalTpl() {
 	term := []string{"\n", "\r", "\r\n", "\n\n"}[verifChoose("term", 4)]
 	wire := name + ":" + hole + term
 	var m Message
-	_ = m.UnmarshalText([]byte(wire))
+	buf := []byte(wire)
+	_ = m.UnmarshalText(buf)
 	verifAssert(!m.ID.IsSet() || !vhHasNL(m.ID.String()), "C14/Message.UnmarshalText/id-single-line")
 	verifAssert(!m.Type.IsSet() || !vhHasNL(m.Type.String()), "C14/Message.UnmarshalText/type-single-line")
+	for i := range buf {
+		buf[i] = '\n'
+	}
+	verifAssert(!m.ID.IsSet() || !vhHasNL(m.ID.String()), "C14/Message.UnmarshalText/id-single-line-after-buffer-reuse")
+	verifAssert(!m.Type.IsSet() || !vhHasNL(m.Type.String()), "C14/Message.UnmarshalText/type-single-line-after-buffer-reuse")
 	if m.ID.IsSet() || m.Type.IsSet() {
 		verifCover("C14/Message.UnmarshalText/field-set")
 	}
